@@ -92,6 +92,8 @@ PINNED = {
     "relabelY": "y_reduction = 1 * (weights > 0)",
     "relabelW": "weights = weights.abs()",
     "useDummy": "len(y_reduction_unique) == 1",
+    "regression": "y_reduction = self.constraints._y_as_series",
+    "isClassification": "isinstance(self.constraints, ClassificationMoment) -> true / false",
     "loss": ("(1.0 - self.constraint_weight) * self.objectives_[i] + self.constraint_weight * self.gammas_[grid.columns[i]].max()",
              "self.objective_weight * self.objectives_[i] + self.constraint_weight * self.gammas_[grid.columns[i]].max()"),
     "gammaAgg": "max",
@@ -147,7 +149,11 @@ def float_estimate(neg_allowed, force, grid_size):
         n = eval(meta["estimate"], {"np": np}, {"grid_size": grid_size, "neg_allowed": np.array(neg_allowed, dtype=bool),
                                                 "true_dim": true_dim, "float": float})
         n = int(np.floor(n))
-        return n if n >= 0 else 0
+        # the clip is the LIFTED statement (`if n_units < 0: n_units = 0` in the pinned source), executed as it is
+        var = meta["estimateVar"]
+        scope = {var: n}
+        exec(meta["estimateClip"], {}, scope)  # noqa: S102 (lifted source text, already type-checked by the lifter)
+        return int(scope[var])
     except Exception:  # noqa: BLE001
         return None
 
@@ -557,13 +563,16 @@ class CHECK(Check):
         lams = [{k: F(v) for k, v in zip(idx, col)} for col in o["lam"]]
         ws = []
         self._parts = []
+        self._fit_w = []
         for lam in lams:
             if span:
                 w = P.bgl_weights(lam)
+                self._fit_w.append(list(w))
                 ws.append([wi if yi == 1 else -wi for wi, yi in zip(w, case["y"])])
                 self._parts.append((ws[-1], [F(0)] * P.n))
             else:
                 ws.append(P.signed_weights(lam))
+                self._fit_w.append(list(ws[-1]))
                 cwt = P.signed_weights(lam, with_objective=False)
                 self._parts.append((cwt, [a - b_ for a, b_ in zip(ws[-1], cwt)]))
         objs = [P.objective(p["train"]) for p in o["predictors"]]
@@ -597,6 +606,9 @@ class CHECK(Check):
             ls.append(f"grid.fitloop {proto.b(span)} {proto.rat(F(case['cw']))} {proto.lst(self._parts[0][1])} "
                       f"{proto.mat([c for c, _ in self._parts])} {proto.mat([p['train'] for p in o['predictors']])} "
                       f"{proto.lst(objs)} {proto.mat([[gm[k] for k in P.index] for gm in gams])}")
+            # what the estimator is fitted on, through the lifted `if is_classification_reduction: ... else: ...`
+            for fw in self._fit_w:
+                ls.append(f"grid.fitdata {proto.b(not span)} {proto.lst([F(v) for v in case['y']])} {proto.lst(fw)}")
         return ls
 
     # ---------------------------------------------------------------- judging
@@ -821,6 +833,20 @@ class CHECK(Check):
             elif case["moment"] != "BGL" and all(x > TOL_W for x in wr) and (t[3] == "1") != p["dummy"]:
                 probs.append(Problem("correspondence", f"grid point {i}: DummyClassifier used = {p['dummy']} but the relabelled "
                                                        f"data has {len(set(yr))} distinct label(s)", "C09.relabel (dummy rule)"))
+        # the data the estimator is fitted on (lifted classification / regression branches)
+        kf = 3 + len(o["predictors"])
+        for i, fw in enumerate(getattr(self, "_fit_w", [])):
+            if kf + i >= len(mo):
+                probs.append(Problem(mo_kind(), "driver returned too few lines for grid.fitdata", mo_rel("C09.src_regression_keeps_data")))
+                break
+            t = mo[kf + i].split(" ")
+            if case["moment"] == "BGL":
+                want_y, want_w = [F(v) for v in case["y"]], list(fw)
+            else:
+                want_y, want_w = ro.relabel(fw)
+            if t[0] == "bad-op" or len(t) != 2 or proto.p_list(t[0]) != [F(v) for v in want_y] or proto.p_list(t[1]) != want_w:
+                probs.append(Problem(mo_kind(), f"model fit data {mo[kf + i][:80]} != oracle {want_y} {want_w} at grid point {i}",
+                                     mo_rel("C09.src_regression_keeps_data / src_classification_fitData")))
         # the whole loop (fitLoop) replayed with the recorded labelings as the base learner
         k = 2 + len(o["predictors"])
         robust = case["moment"] != "BGL" and all(abs(x) > TOL_W for w in ws for x in w)
